@@ -341,6 +341,11 @@ def _reaper_side(fi):
 
 
 def run(ctx):
+    # the configured size is lowered once per worker that shrink() really retires (borrowed from C09): a refused shrink
+    # that leaves the target too low is a lost worker that is never replaced
+    from .c09 import r09_5 as _r09_5
+    from ..report import Only as _Only4b
+    _r09_5(_Only4b(ctx, ('shrink:',), floor=2, doc='shrink() lowers the configured size once per worker it retires'))
     # a lost worker is replaced unless the restart limiter says no: its window must be the real one (borrowed from C11)
     from .c11 import r11_2 as _r11_2
     from ..report import Only as _Only4
